@@ -218,6 +218,13 @@ func TestC02Stress(t *testing.T) {
 
 func runStress(r *Run, rng *Rng, submitters, perSubmitter int, prop string) {
 	env := NewLogEnv(r, rng.Fork("env"))
+	lowFrac := 0
+	if rng.Intn(2) == 0 {
+		// bounded pool with low-priority traffic: rate limiting and eviction paths
+		env.PoolSize = 2 + rng.Intn(7)
+		lowFrac = 40
+		r.Count("runs_with_bounded_pool", 1)
+	}
 	env.NoTruth = true
 	env.AuditPub = true
 	env.CaseInfo = func() any {
@@ -271,7 +278,7 @@ func runStress(r *Run, rng *Rng, submitters, perSubmitter int, prop string) {
 					universe = append(universe, e)
 				}
 				umu.Unlock()
-				s := li.Submit(e, false)
+				s := li.SubmitConcurrent(e, grng.Intn(100) < lowFrac)
 				a := li.WaitAck(context.Background(), s)
 				if a.OK {
 					r.DistinctKey(fmt.Sprintf("%s/%d", s.Source, a.Index%256))
